@@ -428,6 +428,8 @@ func Run(c *hx.Ctx) {
 	partSpell(c, hx.NewRng(c.Seed*1000003+0x9a57))
 	// workspaces that do not fit the range given to iso9660 / squashfs Create (own stream as well)
 	overFamily(c, hx.NewRng(c.Seed*1000003+0x0e7))
+	// gap writes on the file that owns the last data cluster of a full FAT volume (own stream as well)
+	gapAtLastCluster(c, hx.NewRng(c.Seed*1000003+0x6a9))
 }
 
 func safely(f func() error) (err error) {
